@@ -248,9 +248,14 @@ class LoadMixin(AbstractLoaderGenerator, BaseLoadHook):
             # Wrap because we need to create a tuple from list comprehension
             force_wrap = True
         else:
+            # Note: the tuple itself can sit at an indexed position, e.g. the
+            # inner one in `tuple[tuple[int, str], float]` is `v1[0]`, so its
+            # elements are `v1[0][0]` and `v1[0][1]`.
+            idx = tp.index
             string = ', '.join([
                 str(cls.get_string_for_annotation(
-                    tp.replace(origin=arg, index=k),
+                    tp.replace(origin=arg,
+                               index=k if idx is None else f'{idx}][{k}'),
                     extras))
                 for k, arg in enumerate(args)])
 
